@@ -591,7 +591,7 @@ Qed.
 Lemma L_step_final : forall s i t l1 l2 f when rc',
   Linv s -> s_tasks s = l1 ++ t :: l2 -> task_id t = i ->
   (forall m, m_sender (f m) = m_sender m) ->
-  (forall m, st_get (s_store s) i = Some m -> phase_ok (D s i) -> d_task (D s i) = Some t ->
+  (forall m, st_get (s_store s) i = Some m -> good (s_next s) i (D s i) -> d_task (D s i) = Some t ->
      d_qd (D s i) = false /\ m_rcpts (f m) = rc' /\ NoDup rc' /\
      (forall r, In r rc' -> ~ In r (deliv_l (g_deliv s) i) /\ forall b, ~ In (r, b) (trip_l (g_fail s) i)) /\
      (forall r sf, In (r, sf) (trip_l (g_acc s) i) -> In r (m_rcpts m) ->
@@ -602,10 +602,10 @@ Lemma L_step_final : forall s i t l1 l2 f when rc',
 Proof.
   intros s i t l1 l2 f when rc' H E1 Ei Hsn Hph Hst s1.
   destruct (at_member s l1 _ l2 H E1) as [Nd [Htk G]]. rewrite Ei in Htk, G.
-  destruct G as [q1 q2 gs gn gf gl gp].
+  pose proof G as G0. destruct G as [q1 q2 gs gn gf gl gp].
   destruct (st_get (s_store s) i) as [m|] eqn:Eg; [|contradiction].
   assert (HtkD : d_task (D s i) = Some t) by (unfold D; Dcbn; exact Htk).
-  destruct (Hph m eq_refl gp HtkD) as [Pq [Prc [Pnd [Pun Pcov]]]].
+  destruct (Hph m eq_refl G0 HtkD) as [Pq [Prc [Pnd [Pun Pcov]]]].
   unfold D in q1, q2, gs, gn, gf, gl, Pq. Dcbn_in q1. Dcbn_in q2. Dcbn_in gs. Dcbn_in gn. Dcbn_in gl. Dcbn_in Pq.
   assert (Pqi : mem i (s_qids s) = false).
   { destruct (mem i (s_qids s)) eqn:E; [|reflexivity]. rewrite (q2 eq_refl) in Pq. discriminate. }
@@ -922,7 +922,7 @@ Proof.
     destruct (find (fun e => snd e =? j) d) as [e|] eqn:Ef.
     + (* j is being dispatched *)
       apply find_some in Ef. destruct Ef as [He Ej]. apply N.eqb_eq in Ej. subst j.
-      destruct (Hd e He) as [Ha [Ht Hu]]. rewrite Ht.
+      destruct (Hd e He) as [Ha [Ht Hu]]. unfold id, time in *. rewrite Ht.
       assert (Hin : mem (snd e) (map snd d) = true) by (apply mem_In; apply in_map; exact He).
       rewrite Hin. cbn [orb].
       assert (Hnr : mem (snd e) (qids_of r) = false) by (apply mem_false_In; apply Hdisj; apply in_map; exact He).
@@ -941,20 +941,298 @@ Proof.
     + (* j untouched: only queued_ids is recomputed, to the same membership *)
       assert (Hnd : mem j (map snd d) = false).
       { apply mem_false_In. intro Hi. apply in_map_iff in Hi. destruct Hi as [e [E He]].
-        apply (find_none _ _ Ef e) in He. rewrite E, N.eqb_refl in He. discriminate. }
-      rewrite Hnd. cbn [orb].
+        apply (find_none _ _ Ef e) in He. cbn beta in He. unfold id, time in *. rewrite E, N.eqb_refl in He. discriminate. }
+      unfold id, time in *. rewrite Hnd. cbn [orb].
       pose proof (l_good s H j) as G.
       assert (Eqd : mem j (qids_of (s_queued s)) = mem j (qids_of r)).
-      { rewrite Eq. unfold qids_of. rewrite map_app, mem_app, Hnd. reflexivity. }
+      { rewrite Eq. unfold qids_of, id, time in *. rewrite map_app, mem_app, Hnd. reflexivity. }
       assert (Eqi : mem j (s_qids s) = mem j (qids_of r)).
       { rewrite <- Eqd. destruct G as [q1 q2 _ _ _ _ _]. unfold D in q1, q2. Dcbn_in q1. Dcbn_in q2.
         destruct (mem j (s_qids s)) eqn:E1; destruct (mem j (qids_of (s_queued s))) eqn:E2; try reflexivity.
-        - rewrite (q2 eq_refl) in E2. discriminate.
-        - destruct (q1 eq_refl) as [A _]. rewrite A in E1. discriminate. }
+        - discriminate (q2 eq_refl).
+        - destruct (q1 eq_refl) as [A _]. discriminate A. }
       destruct (task_of (s_tasks s) j) eqn:Et; unfold D in G; rewrite Et, Eqd, Eqi in G; exact G.
   - proj. unfold all_ids. rewrite map_app, map_map. cbn [task_id].
     apply nodup_app_intro; [apply (l_tasks_nodup s H)|exact Nd_d|].
     intros x Hx Hi. apply in_map_iff in Hx. destruct Hx as [e [E He]]. subst x.
     destruct (Hd e He) as [_ [Ht _]]. apply task_of_none in Ht. contradiction.
   - proj. exact Nd_r.
+Qed.
+
+(* ---------- the step lemma ---------- *)
+Lemma Linv_ext : forall s s', Linv s -> s_tasks s' = s_tasks s -> s_active s' = s_active s -> s_qids s' = s_qids s ->
+  s_queued s' = s_queued s -> s_store s' = s_store s -> g_deliv s' = g_deliv s -> g_fail s' = g_fail s ->
+  g_acc s' = g_acc s -> s_next s' = s_next s -> Linv s'.
+Proof.
+  intros s s' H E1 E2 E3 E4 E5 E6 E7 E8 E9. destruct H as [Hg N1 N2]. constructor.
+  - intro i. unfold D. rewrite E1, E2, E3, E4, E5, E6, E7, E8, E9. apply Hg.
+  - rewrite E1. exact N1.
+  - rewrite E4. exact N2.
+Qed.
+
+Lemma pick_ext : forall p q rs res, (forall x, p x = q x) -> pick p rs res = pick q rs res.
+Proof.
+  intros p q rs. induction rs as [|r rs IH]; intros res H; cbn; [reflexivity|].
+  rewrite H. rewrite (IH _ H). reflexivity.
+Qed.
+
+Definition f_incr (m : msg) : msg := mkMsg (m_sender m) (m_rcpts m) (m_attempts m + 1) (m_ts m).
+Definition f_ts (w : time) (m : msg) : msg := mkMsg (m_sender m) (m_rcpts m) (m_attempts m) w.
+Definition f_deliv (res : list rres) (m : msg) : msg := mkMsg (m_sender m) (unsettled (m_rcpts m) res) (m_attempts m) (m_ts m).
+
+Lemma step_L : forall s e, Linv s -> ev_ok s e -> Linv (step s e).
+Proof.
+  intros s e H Hok. destruct e.
+  - (* EWrite *) apply L_write; [exact H|exact Hok].
+  - (* EEnqDone *)
+    unfold step. destruct (take_task (is_enq i) (s_tasks s)) as [[t rest]|] eqn:T; [|exact H].
+    destruct t; try exact H.
+    apply take_task_spec in T. destruct T as [Hp [l1 [l2 [E1 E2]]]].
+    apply is_enq_id in Hp. destruct Hp as [Hid _]. cbn in Hid. subst i0 rest.
+    destruct (L_enq_done s i snd rcpts l1 l2 H E1) as [Ha HL]. proj. rewrite Ha. exact HL.
+  - (* ERelay *)
+    unfold step. destruct (take_task (is_attempt i) (s_tasks s)) as [[t rest]|] eqn:T; [|exact H].
+    destruct t; try exact H.
+    apply take_task_spec in T. destruct T as [Hp [l1 [l2 [E1 E2]]]].
+    apply is_attempt_id in Hp. destruct Hp as [Hid _]. cbn in Hid. subst i0 rest.
+    destruct o.
+    + apply (L_relay_ok s i snd rcpts n l1 l2 H E1).
+    + apply (L_relay_temp s i snd rcpts n l1 l2 H E1).
+    + apply (L_relay_perm s i snd rcpts n l1 l2 H E1).
+    + apply (L_relay_temp s i snd rcpts n l1 l2 H E1).
+    + destruct (at_member s l1 _ l2 H E1) as [_ [Htk _]]. cbn [task_id] in Htk.
+      apply (L_relay_partial s i snd rcpts n l1 l2 res H E1). apply (Hok snd rcpts n Htk).
+  - (* EStep *)
+    unfold step. destruct (take_task (is_retry i) (s_tasks s)) as [[t rest]|] eqn:T; [|exact H].
+    apply take_task_spec in T. destruct T as [Hp [l1 [l2 [E1 E2]]]].
+    pose proof Hp as Hp0. apply is_retry_id in Hp. destruct Hp as [Hid _]. subst rest.
+    destruct (at_member s l1 _ l2 H E1) as [Nd [Htk G]]. rewrite Hid in Htk, G.
+    assert (Hst : st_get (s_store s) i <> None).
+    { destruct G as [_ _ _ _ _ _ gp]. unfold phase_ok, D in gp. Dcbn_in gp. rewrite Htk in gp.
+      destruct t; cbn in Hp0; try discriminate.
+      - destruct dl as [[all res]|]; destruct gp as [_ [_ [m [E _]]]]; rewrite E; discriminate.
+      - destruct dl as [[all res]|]; destruct gp as [_ [_ [m [E _]]]]; rewrite E; discriminate.
+      - destruct gp as [_ [_ [m [E _]]]]; rewrite E; discriminate. }
+    destruct (st_get (s_store s) i) as [m0|] eqn:Eg; [|contradiction].
+    destruct t; cbn in Hp0; try discriminate; cbn in Hid; subst i0.
+    + (* TRetry1 *)
+      destruct b as [w|].
+      * apply (L_step_continue s i _ (TRetry2 i rcpts dl (s_clock s + w)) l1 l2 f_incr H E1 eq_refl eq_refl).
+        -- intro m. split; reflexivity.
+        -- intros m Em Hph Htk'. rewrite Eg in Em. inversion Em; subst m. unfold phase_ok in *. Dcbn. rewrite Htk' in Hph.
+           destruct dl as [[all res]|].
+           ++ destruct Hph as [Pa [Pq [m [Pst [Prc [Psn [Erc [Hcov [Hlog Pun]]]]]]]]].
+              unfold D in Pst. Dcbn_in Pst. rewrite Eg in Pst. inversion Pst; subst m.
+              split; [exact Pa|]. split; [exact Pq|]. exists (f_incr m0). split; [reflexivity|]. split; [exact Prc|].
+              split; [cbn [f_incr m_sender]; rewrite Psn; exact Hlog|exact Pun].
+           ++ destruct Hph as [Pa [Pq [m [Pst [Prc [Psn Pun]]]]]].
+              unfold D in Pst. Dcbn_in Pst. rewrite Eg in Pst. inversion Pst; subst m.
+              split; [exact Pa|]. split; [exact Pq|]. exists (f_incr m0). split; [reflexivity|]. split; [exact Prc|exact Pun].
+        -- rewrite Eg. discriminate.
+      * apply (L_step_exhaust s i snd rcpts dl l1 l2 f_incr H E1).
+        -- intro m. split; reflexivity.
+        -- rewrite Eg. discriminate.
+    + (* TRetry2 *)
+      destruct dl as [[all res]|].
+      * apply (L_step_continue s i _ (TRetry3 i all res when) l1 l2 (f_ts when) H E1 eq_refl eq_refl).
+        -- intro m. split; reflexivity.
+        -- intros m Em Hph Htk'. rewrite Eg in Em. inversion Em; subst m. unfold phase_ok in *. Dcbn. rewrite Htk' in Hph.
+           destruct Hph as [Pa [Pq [m [Pst [Prc [Hlog Pun]]]]]].
+           unfold D in Pst. Dcbn_in Pst. rewrite Eg in Pst. inversion Pst; subst m.
+           split; [exact Pa|]. split; [exact Pq|]. exists (f_ts when m0). split; [reflexivity|]. split; [exact Prc|].
+           split; [exact Hlog|exact Pun].
+        -- rewrite Eg. discriminate.
+      * apply (L_step_final s i _ l1 l2 (f_ts when) when rcpts H E1 eq_refl).
+        -- reflexivity.
+        -- intros m Em Gd Htk'. rewrite Eg in Em. inversion Em; subst m. destruct Gd as [q1 q2 gs gn gf gl gp].
+           unfold phase_ok in gp. rewrite Htk' in gp. destruct gp as [Pa [Pq [m [Pst [Prc Pun]]]]].
+           unfold D in Pst. Dcbn_in Pst. rewrite Eg in Pst. inversion Pst; subst m.
+           split; [exact Pq|]. split; [exact Prc|]. split; [rewrite <- Prc; apply (gn m0); unfold D; Dcbn; exact Eg|].
+           split; [exact Pun|]. intros r sf _ Hr. left. rewrite <- Prc. exact Hr.
+        -- rewrite Eg. discriminate.
+    + (* TRetry3 *)
+      apply (L_step_final s i _ l1 l2 (f_deliv res) when (unsettled all res) H E1 eq_refl).
+      * reflexivity.
+      * intros m Em Gd Htk'. rewrite Eg in Em. inversion Em; subst m. destruct Gd as [q1 q2 gs gn gf gl gp].
+        unfold phase_ok in gp. rewrite Htk' in gp. destruct gp as [Pa [Pq [m [Pst [Prc [[Lok Lperm] Pun]]]]]].
+        unfold D in Pst. Dcbn_in Pst. rewrite Eg in Pst. inversion Pst; subst m.
+        assert (Hnd : NoDup all) by (rewrite <- Prc; apply (gn m0); unfold D; Dcbn; exact Eg).
+        split; [exact Pq|]. split; [cbn [f_deliv m_rcpts]; rewrite Prc; reflexivity|].
+        split; [apply pick_nodup; exact Hnd|]. split; [exact Pun|].
+        intros r sf Hacc Hr. rewrite Prc in Hr.
+        destruct (pick_split not_settled all res r Hr) as [A|A]; [left; exact A|right].
+        rewrite (pick_ext _ is_settled) in A by (intro x; destruct x; reflexivity).
+        destruct (settled_ok_perm all res r A) as [B|B].
+        -- left. apply Lok. exact B.
+        -- right. assert (Esf : m_sender m0 = sf) by (apply (gs m0 (eq_trans eq_refl Eg) r sf); exact Hacc).
+           rewrite <- Esf. apply Lperm. exact B.
+      * rewrite Eg. discriminate.
+  - (* EGet *)
+    unfold step. destruct (take_task (is_dequeue i) (s_tasks s)) as [[t rest]|] eqn:T; [|exact H].
+    destruct t; try exact H.
+    apply take_task_spec in T. destruct T as [Hp [l1 [l2 [E1 E2]]]].
+    apply is_dequeue_id in Hp. destruct Hp as [Hid _]. cbn in Hid. subst i0 rest.
+    destruct (L_get s i c l1 l2 H E1) as [HL _]. destruct (st_get (s_store s) i); exact HL.
+  - (* ERemove *)
+    unfold step. destruct (take_task (is_rm i) (s_tasks s)) as [[t rest]|] eqn:T; [|exact H].
+    pose proof T as T0. apply take_task_spec in T. destruct T as [Hp [l1 [l2 [E1 E2]]]]. subst rest.
+    destruct (L_remove s i t l1 l2 H E1 Hp) as [HL _]. exact HL.
+  - (* ETick *)
+    unfold step. destruct (s_sched s); try exact H.
+    apply (Linv_ext (check_ready s)); try (apply wr_tasks || apply wr_active || apply wr_qids || apply wr_queued || apply wr_store || apply wr_next).
+    + unfold check_ready. destruct (due_prefix (s_clock s) (s_queued s)) as [d r] eqn:Ed. destruct d as [|e d]; [exact H|].
+      apply (L_dispatch_all (fun e => CTimer (fst e))); [exact H|]. 
+      clear -Ed. revert Ed. generalize (e :: d). intros d0 Ed. 
+      revert d0 r Ed. induction (s_queued s) as [|[t i] q IH]; intros d0 r Ed; cbn in Ed.
+      * inversion Ed; reflexivity.
+      * destruct (t <=? s_clock s).
+        -- destruct (due_prefix (s_clock s) q) as [d1 r1] eqn:E1. inversion Ed; subst. cbn. f_equal. apply IH. reflexivity.
+        -- inversion Ed; subst. reflexivity.
+    + destruct (wr_ghost (check_ready s)) as [_ [G _]]. exact G.
+    + destruct (wr_ghost (check_ready s)) as [_ [_ [G _]]]. exact G.
+    + destruct (wr_ghost (check_ready s)) as [G _]. exact G.
+  - (* EWakeup *)
+    unfold step. destruct (s_sched s) as [|[t|]|]; try exact H.
+    + destruct (t <=? s_clock s); [|exact H]. apply (Linv_ext s); auto.
+    + apply (Linv_ext s); auto.
+  - (* EAdvance *) apply (Linv_ext s); auto.
+  - (* EAnnounce *) apply L_announce; assumption.
+  - (* EFlush *)
+    unfold step. set (s0 := set_sched s (notified (s_sched s)) false).
+    assert (H0 : Linv s0) by (apply (Linv_ext s); auto).
+    change (@nil id) with (qids_of []).
+    apply (L_dispatch_all (fun _ => CFlush)); [exact H0|]. rewrite app_nil_r. reflexivity.
+Qed.
+
+(* ---------- theorems ---------- *)
+Lemma In_deliv_l : forall l i r, In r (deliv_l l i) <-> In (i, r) l.
+Proof.
+  intros l i r. unfold deliv_l. rewrite in_map_iff. split.
+  - intros [[j x] [E Hx]]. cbn in E. subst x. apply filter_In in Hx. destruct Hx as [Hx Hj]. cbn in Hj. apply N.eqb_eq in Hj. subst. exact Hx.
+  - intro H. exists (i, r). split; [reflexivity|]. apply filter_In. split; [exact H|cbn; apply N.eqb_refl].
+Qed.
+
+Lemma In_trip_l : forall l i r b, In (r, b) (trip_l l i) <-> In (i, r, b) l.
+Proof.
+  intros l i r b. unfold trip_l. rewrite in_map_iff. split.
+  - intros [[[j x] y] [E Hx]]. cbn in E. inversion E; subst. apply filter_In in Hx. destruct Hx as [Hx Hj]. cbn in Hj. apply N.eqb_eq in Hj. subst. exact Hx.
+  - intro H. exists (i, r, b). split; [reflexivity|]. apply filter_In. split; [exact H|cbn; apply N.eqb_refl].
+Qed.
+
+Lemma init_L : Linv init.
+Proof.
+  constructor; [|constructor|constructor]. intro i. unfold D. cbn.
+  constructor; cbn; try discriminate; try (intros; contradiction).
+  - intros [A|[A|[A|[A|[A|[A|[A|A]]]]]]]; try discriminate; exfalso; apply A; reflexivity.
+  - split; [discriminate|]. split; [intros m Em; discriminate|]. intro Hx. contradiction.
+Qed.
+
+Lemma run_L : forall es s, Linv s -> ok_run es s -> Linv (run es s).
+Proof.
+  induction es as [|e es IH]; intros s H Hok; cbn; [exact H|]. destruct Hok as [Ho Hr].
+  apply IH; [apply step_L; assumption|exact Hr].
+Qed.
+
+(* C01: every accepted recipient is delivered, failed for good with the bounce flag of its
+   sender, or still outstanding in storage *)
+Lemma no_loss : forall es i r sf, ok_run es init ->
+  let s := run es init in
+  In (i, r, sf) (g_acc s) ->
+  In (i, r) (g_deliv s) \/ In (i, r, sf) (g_fail s) \/ exists m, st_get (s_store s) i = Some m /\ In r (m_rcpts m).
+Proof.
+  intros es i r sf Hok s Hacc. pose proof (run_L es init init_L Hok) as HL. fold s in HL.
+  pose proof (g_noloss _ _ _ (l_good s HL i) r sf) as G. unfold D in G. Dcbn_in G.
+  rewrite In_trip_l, In_deliv_l, In_trip_l in G. apply G. exact Hacc.
+Qed.
+
+(* under fair announcements: a stored message nobody is working on is in the timetable *)
+Lemma stored_idle_is_queued : forall es i, ok_run es init ->
+  let s := run es init in
+  st_get (s_store s) i <> None -> ~ In i (all_ids (s_tasks s)) -> In i (qids_of (s_queued s)).
+Proof.
+  intros es i Hok s Hst Hnt. pose proof (run_L es init init_L Hok) as HL. fold s in HL.
+  pose proof (g_phase _ _ _ (l_good s HL i)) as P. unfold phase_ok, D in P. Dcbn_in P.
+  apply task_of_none in Hnt. rewrite Hnt in P. destruct P as [_ [_ P3]]. apply mem_In. apply P3. exact Hst.
+Qed.
+
+(* C01: storage removal happens only when every recipient of the message is settled *)
+Lemma removed_only_when_settled : forall es i t rest, ok_run es init ->
+  let s := run es init in
+  take_task (is_rm i) (s_tasks s) = Some (t, rest) ->
+  forall r sf, In (i, r, sf) (g_acc s) -> In (i, r) (g_deliv s) \/ In (i, r, sf) (g_fail s).
+Proof.
+  intros es i t rest Hok s T r sf Hacc. pose proof (run_L es init init_L Hok) as HL. fold s in HL.
+  apply take_task_spec in T. destruct T as [Hp [l1 [l2 [E1 _]]]].
+  destruct (L_remove s i t l1 l2 HL E1 Hp) as [_ Hall]. unfold all_settled, D in Hall. Dcbn_in Hall.
+  specialize (Hall r sf). rewrite In_trip_l, In_deliv_l, In_trip_l in Hall. apply Hall. exact Hacc.
+Qed.
+
+(* C03: a delivery attempt never includes a recipient that is already settled *)
+Definition unsettled_in (s : state) (i : id) (r : rcpt) : Prop :=
+  ~ In (i, r) (g_deliv s) /\ forall b, ~ In (i, r, b) (g_fail s).
+
+Lemma attempt_from_enqueue_unsettled : forall es i snd rcpts rest, ok_run es init ->
+  let s := run es init in
+  take_task (is_enq i) (s_tasks s) = Some (TEnq i snd rcpts, rest) ->
+  forall r, In r rcpts -> unsettled_in s i r.
+Proof.
+  intros es i snd rcpts rest Hok s T r Hr. pose proof (run_L es init init_L Hok) as HL. fold s in HL.
+  apply take_task_spec in T. destruct T as [_ [l1 [l2 [E1 _]]]].
+  destruct (at_member s l1 _ l2 HL E1) as [_ [Htk G]]. cbn [task_id] in Htk, G.
+  pose proof (g_phase _ _ _ G) as P. unfold phase_ok, D in P. Dcbn_in P. rewrite Htk in P.
+  destruct P as [_ [_ [m [_ [_ [_ Pun]]]]]]. destruct (Pun r Hr) as [U1 U2]. Dcbn_in U1. Dcbn_in U2.
+  split; [rewrite <- In_deliv_l; exact U1|intros b; rewrite <- In_trip_l; apply U2].
+Qed.
+
+Lemma attempt_from_storage_unsettled : forall es i c rest m, ok_run es init ->
+  let s := run es init in
+  take_task (is_dequeue i) (s_tasks s) = Some (TDequeue i c, rest) -> st_get (s_store s) i = Some m ->
+  forall r, In r (m_rcpts m) -> unsettled_in s i r.
+Proof.
+  intros es i c rest m Hok s T Eg r Hr. pose proof (run_L es init init_L Hok) as HL. fold s in HL.
+  apply take_task_spec in T. destruct T as [_ [l1 [l2 [E1 _]]]].
+  destruct (L_get s i c l1 l2 HL E1) as [_ Pun]. destruct (Pun m Eg r Hr) as [U1 U2]. unfold D in U1, U2. Dcbn_in U1. Dcbn_in U2.
+  split; [rewrite <- In_deliv_l; exact U1|intros b; rewrite <- In_trip_l; apply U2].
+Qed.
+
+(* the two lemmas above cover every attempt: attempts are started by those two events only *)
+Lemma attempts_started_by : forall s e a, In a (g_atts (step s e)) ->
+  In a (g_atts s) \/
+  (exists i snd rcpts rest, e = EEnqDone i /\ take_task (is_enq i) (s_tasks s) = Some (TEnq i snd rcpts, rest) /\
+      a = mkAtt i rcpts 0 (s_clock s) CEnqueue) \/
+  (exists i c rest m, e = EGet i /\ take_task (is_dequeue i) (s_tasks s) = Some (TDequeue i c, rest) /\
+      st_get (s_store s) i = Some m /\ a = mkAtt i (m_rcpts m) (m_attempts m) (s_clock s) c).
+Proof.
+  intros s e a H. destruct e; unfold step in H.
+  - left. exact H.
+  - destruct (take_task (is_enq i) (s_tasks s)) as [[t rest]|] eqn:T; [|left; exact H].
+    destruct t; try (left; exact H). pose proof T as T0. apply take_task_spec in T0. destruct T0 as [Hp _].
+    apply is_enq_id in Hp. destruct Hp as [Hid _]. cbn in Hid. subst i0.
+    proj_in H. destruct (mem i (s_active s)); [left; exact H|]. unfold log_att in H. proj_in H.
+    destruct H as [H|H]; [|left; exact H]. right. left. exists i, snd, rcpts, rest. auto.
+  - destruct (take_task (is_attempt i) (s_tasks s)) as [[t rest]|]; [|left; exact H]. destruct t; try (left; exact H).
+    destruct o; try (left; exact H). destruct (pick is_temp rcpts res); left; exact H.
+  - destruct (take_task (is_retry i) (s_tasks s)) as [[t rest]|]; [|left; exact H].
+    destruct (st_get (s_store s) i); [|left; exact H]. destruct t; try (left; exact H).
+    + destruct b; left; exact H.
+    + destruct dl as [[all res]|]; [left; exact H|]. rewrite aq_atts in H. left. exact H.
+    + rewrite aq_atts in H. left. exact H.
+  - destruct (take_task (is_dequeue i) (s_tasks s)) as [[t rest]|] eqn:T; [|left; exact H].
+    destruct t; try (left; exact H). pose proof T as T0. apply take_task_spec in T0. destruct T0 as [Hp _].
+    apply is_dequeue_id in Hp. destruct Hp as [Hid _]. cbn in Hid. subst i0.
+    destruct (st_get (s_store s) i) as [m|] eqn:Eg; [|left; exact H]. unfold log_att in H. proj_in H.
+    destruct H as [H|H]; [|left; exact H]. right. right. exists i, c, rest, m. auto.
+  - destruct (take_task (is_rm i) (s_tasks s)) as [[t rest]|]; left; exact H.
+  - destruct (s_sched s); try (left; exact H). destruct (wr_ghost (check_ready s)) as [_ [_ [_ [G _]]]]. rewrite G in H.
+    unfold check_ready in H. destruct (due_prefix (s_clock s) (s_queued s)) as [d r]. destruct d as [|e d]; [left; exact H|]. proj_in H.
+    assert (Ea : forall d0 s1, g_atts (fold_left (fun s e => dispatch s (snd e) (CTimer (fst e))) d0 s1) = g_atts s1).
+    { induction d0 as [|e0 d0 IH]; intro s1; cbn; [reflexivity|]. rewrite IH. destruct (dispatch_ghost s1 (snd e0) (CTimer (fst e0))) as [_ [_ [_ [G4 _]]]]. exact G4. }
+    rewrite Ea in H. left. exact H.
+  - destruct (s_sched s) as [|[t|]|]; try (left; exact H). destruct (t <=? s_clock s); left; exact H.
+  - left. exact H.
+  - rewrite aq_atts in H. left. exact H.
+  - proj_in H.
+    assert (Ea : forall d0 s1, g_atts (fold_left (fun s (e : time * id) => dispatch s (snd e) CFlush) d0 s1) = g_atts s1).
+    { induction d0 as [|e0 d0 IH]; intro s1; cbn; [reflexivity|]. rewrite IH. destruct (dispatch_ghost s1 (snd e0) CFlush) as [_ [_ [_ [G4 _]]]]. exact G4. }
+    rewrite Ea in H. left. exact H.
 Qed.
